@@ -54,8 +54,10 @@ Run ==
                            \cup Fl("C18.ServableLockAbs", ServableLockAbs')
                            \cup Fl("C18.RestartOK", RestartOK')
                       ELSE {})
+           bad == {f \in Removed' : ~(Deletable(f, dir0', pv', pub') \/ (f.t = "pdir" /\ MembersIn(f, dir0') \subseteq Removed'))}
        IN /\ viol' = {<<nm, l>> : nm \in v}
           /\ PrintT(<<"SCENARIO", e.name, viol'>>)
+          /\ (bad # {} => PrintT(<<"OFFENDERS", l, {<<f.t, f.k, f.l, f.n, f.w, f.id>> : f \in bad}>>))
     /\ l' = l + 1
 
 End ==
